@@ -559,7 +559,8 @@ def drive(prop_id, tier, seed_value, only=None, jobs=None, scale=1.0,
             continue
         seen_subs.add(sub_name)
         d = "%016x" % digest(fl["case"])
-        path = os.path.join(VERIF_DIR if write_evidence else "/tmp/pyrex-verif-scratch",
+        scratch = os.environ.get("VERIF_SCRATCH") or "/tmp/pyrex-verif-scratch/%d" % os.getpid()
+        path = os.path.join(VERIF_DIR if write_evidence else scratch,
                             "replays", prop_id, "%s-%s.json" % (sub_name, d[:12]))
         _write_json(path, {
             "property": prop_id, "subcheck": sub_name, "seed": seed_value,
